@@ -217,7 +217,8 @@ def register(reg):
                                                                         pure=True, assumed=True)}))
     reg.add_family(Family('RootSig', methods={'py__file__': FnSpec('ModuleContext.py__file__', ret=Opt(ANY), pure=True,
                                                                    assumed=True)}))
-    reg.add_family(Family('MatchSig'))
+    reg.add_family(Family('MatchSig', methods={'group': FnSpec('Match.group', params=[('n', INT)], defaults={'n': 0},
+                                                               ret=STR, pure=True, assumed=True)}))
     reg.names['re'] = MNS('re', {
         'match': MFn('spec', 're.match', spec=FnSpec('re.match', params=[('pattern', STR), ('s', STR), ('flags', ANY)],
                                                      defaults={'flags': None}, ret=Opt(Obj('MatchSig')), pure=False,
